@@ -1619,9 +1619,17 @@ def grd6(P, R, L, rule="GRD-6"):
     # (a further read whose error is simply propagated) lies between the parser and the return -- the trailer is skipped
     # lazily, before the *next* header, so a log whose last record ends 1..6 bytes before a block boundary keeps it
     late = []
+    # ... nor between the complete read of the fragment's payload (the last read in front of the parser) and the parser
+    starts = list(parse)
     for p_ in parse:
+        before = [r_ for r_ in reads if r_.target is not None and pr.dominates(r_.bb, p_.bb) and r_.bb != p_.bb]
+        last = [r_ for r_ in before if not any(o is not r_ and o.bb in pr.reachable(r_.target) for o in before)]
+        starts += last
+    for p_ in starts:
         after = pr.reachable(p_.target) if p_.target is not None else set()
         for c in pr.calls():
+            if c.bb == p_.bb:
+                continue
             nm = c.declared_name or c.name or ""
             if c.bb not in after or pr.is_cleanup(c.bb) or not (nm.endswith("Read::read") or nm.endswith("Read::read_exact")):
                 continue
@@ -4579,6 +4587,12 @@ def bundle_filter(P, R, L):
     R.once(grd7, P, R, L)
     from . import blind
     R.once(blind.agr5_filter_index_from_the_plain_offset, P, R, L)
+    from . import round12 as _r12f
+    R.once(_r12f.grd15b_filter_block_name_carries_the_policy, P, R, L)
+    # the filter a lookup trusts is made of verified bytes (the filter block is stored raw: a checksum that is only compared on the
+    # compressed path lets zeroed Bloom bits answer `not in this file`)
+    R.once(ord14, P, R, L)
+    R.once(own5, P, R, L)
 
 
 def bundle_no_assertion_trips(P, R, L):
